@@ -17,6 +17,7 @@
 #include "plugins_types.h"
 
 #include <ctype.h>
+#include <inttypes.h>
 #include <stdint.h>
 #include <stdlib.h>
 #include <string.h>
@@ -245,6 +246,45 @@ bits_bitmap2items(const char *bitmap, struct lysc_type_bits *type, struct lysc_t
 }
 
 /**
+ * @brief Check that every bit set in a bitmap is a bit defined by the type.
+ *
+ * @param[in] bitmap Bitmap to check, its size is ::lyplg_type_bits_bitmap_size().
+ * @param[in] type Bits type.
+ * @param[out] err Error information.
+ * @return LY_ERR value.
+ */
+static LY_ERR
+bits_check_bitmap(const char *bitmap, struct lysc_type_bits *type, struct ly_err_item **err)
+{
+    size_t i, bitmap_size = lyplg_type_bits_bitmap_size(type);
+    uint32_t bit_pos = 0;
+    uint8_t bitmask;
+    const uint8_t *byte;
+    LY_ARRAY_COUNT_TYPE u;
+
+    for (i = 0; i < bitmap_size; ++i) {
+        byte = (uint8_t *)BITS_BITMAP_BYTE(bitmap, bitmap_size, i);
+        for (bitmask = 1; bitmask; bitmask <<= 1, ++bit_pos) {
+            if (!(*byte & bitmask)) {
+                continue;
+            }
+
+            LY_ARRAY_FOR(type->bits, u) {
+                if (type->bits[u].position == bit_pos) {
+                    break;
+                }
+            }
+            if (u == LY_ARRAY_COUNT(type->bits)) {
+                return ly_err_new(err, LY_EVALID, LYVE_DATA, NULL, NULL, "Invalid LYB bits value, bit position %" PRIu32
+                        " is not defined.", bit_pos);
+            }
+        }
+    }
+
+    return LY_SUCCESS;
+}
+
+/**
  * @brief Generate canonical value from ordered array of set bit items.
  *
  * @param[in] items Sized array of set bit items.
@@ -308,6 +348,8 @@ lyplg_type_store_bits(const struct ly_ctx *ctx, const struct lysc_type *type, co
                     value_len, lyplg_type_bits_bitmap_size(type_bits));
             goto cleanup;
         }
+        ret = bits_check_bitmap(value, type_bits, err);
+        LY_CHECK_GOTO(ret, cleanup);
 
         /* store value (bitmap) */
         if (options & LYPLG_TYPE_STORE_DYNAMIC) {
